@@ -210,7 +210,7 @@ where
 //@end
 
 impl<A, D: Dimension> ArrayN<A, D> {
-//@extract file=src/summary_statistics/means.rs impl=SummaryStatisticsExt:ArrayBase fn=weighted_var id=weighted_var tags=C07,C17 body_tags=C07
+//@extract file=src/summary_statistics/means.rs impl=SummaryStatisticsExt:ArrayBase fn=weighted_var id=weighted_var tags=C07,C17 body_tags=C07 macro_into=verif_into_same
 //@sig
     fn weighted_var(&self, weights: &Self, ddof: A) -> (r: Result<A, MultiInputError>)
     where
@@ -222,7 +222,7 @@ impl<A, D: Dimension> ArrayN<A, D> {
             forall|i: int| 0 <= i < weights@.len() ==> (#[trigger] weights@[i]).val() >= 0real,
         ensures
             self@.len() == 0 ==> r matches Err(MultiInputError::EmptyInput), // [C07,C17]
-            self@.len() > 0 && self.shape_spec() != weights.shape_spec() ==> r is Err, // [C07,C17]
+            self@.len() > 0 && self.shape_spec() != weights.shape_spec() ==> (r matches Err(MultiInputError::ShapeMismatch(sm)) && sm.first_shape@ == self.shape_spec() && sm.second_shape@ == weights.shape_spec()), // [C07,C17]
             self@.len() > 0 && self.shape_spec() == weights.shape_spec() ==> r is Ok, // [C07,C17]
             ({ let xs = vals(self@); let ws = vals(weights@); let wt = wpsum(xs, ws, 0, xs.len() as int);
                self@.len() > 0 && self.shape_spec() == weights.shape_spec() && wt > 0real && wt - ddof.val() != 0real
@@ -248,7 +248,7 @@ impl<A, D: Dimension> ArrayN<A, D> {
             forall|i: int| 0 <= i < weights@.len() ==> (#[trigger] weights@[i]).val() >= 0real,
         ensures
             self@.len() == 0 ==> r matches Err(MultiInputError::EmptyInput), // [C07,C17]
-            self@.len() > 0 && self.shape_spec() != weights.shape_spec() ==> r is Err, // [C07,C17]
+            self@.len() > 0 && self.shape_spec() != weights.shape_spec() ==> (r matches Err(MultiInputError::ShapeMismatch(sm)) && sm.first_shape@ == self.shape_spec() && sm.second_shape@ == weights.shape_spec()), // [C07,C17]
             self@.len() > 0 && self.shape_spec() == weights.shape_spec() ==> r is Ok, // [C07,C17]
             // the square root of the weighted variance
             ({ let xs = vals(self@); let ws = vals(weights@); let wt = wpsum(xs, ws, 0, xs.len() as int);
@@ -467,7 +467,7 @@ impl<A, D: Dimension> ArrayN<A, D> {
             forall|i: int| 0 <= i < weights@.len() ==> (#[trigger] weights@[i]).val() >= 0real,
         ensures
             self@.len() == 0 ==> r matches Err(MultiInputError::EmptyInput), // [C07,C17]
-            self@.len() > 0 && self.shape_spec()[axis.0 as int] != weights@.len() ==> r is Err, // [C07,C17]
+            self@.len() > 0 && self.shape_spec()[axis.0 as int] != weights@.len() ==> (r matches Err(MultiInputError::ShapeMismatch(sm)) && sm.first_shape@ == self.shape_spec() && sm.second_shape@ == weights.shape_spec()), // [C07,C17]
             self@.len() > 0 && self.shape_spec()[axis.0 as int] == weights@.len() ==> r is Ok, // [C07,C17]
             // one entry per lane along `axis`, each equal to the weighted variance of that lane with the same weights
             self@.len() > 0 && self.shape_spec()[axis.0 as int] == weights@.len() ==> r->Ok_0@.len() == self.lanes(axis.0 as int).len(), // [C07]
@@ -506,7 +506,7 @@ impl<A, D: Dimension> ArrayN<A, D> {
             forall|i: int| 0 <= i < weights@.len() ==> (#[trigger] weights@[i]).val() >= 0real,
         ensures
             self@.len() == 0 ==> r matches Err(MultiInputError::EmptyInput), // [C07,C17]
-            self@.len() > 0 && self.shape_spec()[axis.0 as int] != weights@.len() ==> r is Err, // [C07,C17]
+            self@.len() > 0 && self.shape_spec()[axis.0 as int] != weights@.len() ==> (r matches Err(MultiInputError::ShapeMismatch(sm)) && sm.first_shape@ == self.shape_spec() && sm.second_shape@ == weights.shape_spec()), // [C07,C17]
             self@.len() > 0 && self.shape_spec()[axis.0 as int] == weights@.len() ==> r is Ok, // [C07,C17]
             self@.len() > 0 && self.shape_spec()[axis.0 as int] == weights@.len() ==> r->Ok_0@.len() == self.lanes(axis.0 as int).len(), // [C07]
             // the square root of the per-lane weighted variance
@@ -584,7 +584,7 @@ impl<A, D: Dimension> ArrayN<A, D> {
 //@spec
         requires real_model::<A>(), axis.0 < self.shape_spec().len(),
         ensures
-            self.shape_spec()[axis.0 as int] != weights@.len() ==> r is Err, // [C06,C17] (also for empty data: the sum-type routine only compares lengths)
+            self.shape_spec()[axis.0 as int] != weights@.len() ==> (r matches Err(MultiInputError::ShapeMismatch(sm)) && sm.first_shape@ == self.shape_spec() && sm.second_shape@ == weights.shape_spec()), // [C06,C17] (also for empty data: the sum-type routine only compares lengths)
             self.shape_spec()[axis.0 as int] == weights@.len() ==> r is Ok && r->Ok_0@.len() == self.lanes(axis.0 as int).len(), // [C06,C17]
             // entry j is the weighted sum of lane j with the same weights, data and weights paired by logical index
             self.shape_spec()[axis.0 as int] == weights@.len() ==> forall|j: int| 0 <= j < self.lanes(axis.0 as int).len() ==>
@@ -616,7 +616,7 @@ let d = *d_ref; let w = *w_ref;
         requires real_model::<A>(), axis.0 < self.shape_spec().len(),
         ensures
             self@.len() == 0 ==> r matches Err(MultiInputError::EmptyInput), // [C06,C17]
-            self@.len() > 0 && self.shape_spec()[axis.0 as int] != weights@.len() ==> r is Err, // [C06,C17]
+            self@.len() > 0 && self.shape_spec()[axis.0 as int] != weights@.len() ==> (r matches Err(MultiInputError::ShapeMismatch(sm)) && sm.first_shape@ == self.shape_spec() && sm.second_shape@ == weights.shape_spec()), // [C06,C17]
             self@.len() > 0 && self.shape_spec()[axis.0 as int] == weights@.len() ==> r is Ok && r->Ok_0@.len() == self.lanes(axis.0 as int).len(), // [C06,C17]
             // entry j is the weighted sum of lane j divided by the sum of the weights
             self@.len() > 0 && self.shape_spec()[axis.0 as int] == weights@.len() && rsum(vals(weights@)) != 0real ==> forall|j: int| 0 <= j < self.lanes(axis.0 as int).len() ==>
